@@ -40,6 +40,7 @@ def run(ctx):
     c03.r33(ctx, ctx.repo['core'], ctx.repo['api'])
     c03.r39(ctx, 'R11.8')
     r119(ctx)
+    r1110(ctx)
     from . import callsigs as _cs
     _cs.general_rules(ctx, 'R11', ['core', 'encoding', 'writer.make_definitions', 'writer.encode_dict', 'writer.encode_plain', 'writer.convert'])
     ctx.exhaustive = True
@@ -315,3 +316,36 @@ def r119(ctx, rule='R11.9'):
             ctx.ob(rule, 'core.%s:hybrid-decode-limit-is-a-length-of-its-own-buffer:%s' % (q, t[:50]), ok,
                    'read_rle_bit_packed_hybrid(%s, ..., %s, ...): %s' % (norm(io) if io is not None else '?', t, why), core.loc(c))
     ctx.floor(rule, 'hybrid decode call sites in core', n, 7)
+
+
+def r1110(ctx, rule='R11.10'):
+    """NumpyIO.read(n) is called with page and level sizes taken from file headers, and 0 is a legitimate size (empty
+    dictionary, all-null v2 page, no levels).  The read-everything default must therefore be recognised by a
+    negative count only; if 0 also means "everything" an empty page swallows the rest of the column chunk"""
+    m = ctx.repo['cencoding']
+    f = m.func('NumpyIO.read')
+    arg = f.args.args[1].arg
+    subst = [st for st in f.body if isinstance(st, ast.If) and any(
+        isinstance(x, ast.Assign) and norm(x.targets[0]) == arg for x in st.body)]
+    ok = False
+    d = 'no default substitution found'
+    if len(subst) == 1:
+        t = subst[0].test
+        d = '`if %s:` substitutes the remaining length' % norm(t)
+        if isinstance(t, ast.Compare) and len(t.ops) == 1 and norm(t.left) == arg and isinstance(t.comparators[0], (ast.Constant, ast.UnaryOp)):
+            try:
+                c = ast.literal_eval(t.comparators[0])
+                ok = (isinstance(t.ops[0], ast.Lt) and c <= 0) or (isinstance(t.ops[0], ast.LtE) and c < 0) or \
+                     (isinstance(t.ops[0], ast.Eq) and c < 0)
+            except Exception:
+                ok = False
+    ctx.ob(rule, 'cencoding.NumpyIO.read:zero-length-read-is-empty', ok, d, m.loc(f))
+    core = ctx.repo['core']
+    sites = []
+    for q, g in core.funcs.items():
+        for c in walk_no_nested(g):
+            if isinstance(c, ast.Call) and isinstance(c.func, ast.Attribute) and c.func.attr == 'read' and len(c.args) == 1 \
+                    and not isinstance(c.args[0], ast.Constant):
+                sites.append('%s: read(%s)' % (q, norm(c.args[0])[:50]))
+    ctx.stat('%s header-sized reads in core (0 is a legal size)' % rule, sites)
+    ctx.floor(rule, 'header-sized reads in core', len(sites), 8)
